@@ -278,6 +278,35 @@ example : (uSpec 4 0 0 0 8 false [((1 : Int), (10 : Int)), (3, 30), (6, 60)]).fl
     (fun p => (uSpec 2 0 0 p.lo p.hi false p.elems).map (fun q => (q.start, q.lo, q.hi))) =
     [(0, 0, 2), (2, 2, 4), (6, 6, 8)] := by decide
 
+/-- … and so do partitions made with `relativeCoords` (since /repo fix 0894f84 their active range is
+    relative too): re-splitting every relative lower with its own range and shifting back by the
+    partition start gives the presented active elements again -/
+theorem resplit_tiles_relative (step step2 as ae : Int) (elems : Fib Int π) (hstep : 0 < step)
+    (hstep2 : 0 < step2) (hsorted : Sorted elems) :
+    (uSpec step 0 0 as ae true elems).flatMap
+        (fun p => ((uSpec step2 0 0 p.lo p.hi false p.elems).flatMap (·.elems)).map
+          (fun e => (e.1 + p.start, e.2))) =
+      elems.filter (fun e => decide (as ≤ e.1) && decide (e.1 < ae)) := by
+  rw [relative_spec, List.flatMap_map, ← uSpec_lossless step as ae hstep elems hsorted]
+  apply flatMap_congr'
+  intro p hp
+  have hsub : p.elems.Sublist elems := (halo_membership step 0 0 as ae elems hstep p hp).2.2.2.2.1
+  have hps : Sorted p.elems := List.Pairwise.sublist hsub hsorted
+  have hps' : Sorted (p.elems.map (fun e => (e.1 - p.start, e.2))) := by
+    unfold Sorted at hps ⊢
+    rw [List.pairwise_map]
+    exact hps.imp (fun h => by simp only; omega)
+  simp only
+  rw [uSpec_lossless step2 _ _ hstep2 _ hps', List.filter_eq_self.2, List.map_map]
+  · have : ((fun e : Int × π => (e.1 + p.start, e.2)) ∘ fun e => (e.1 - p.start, e.2)) = id := by
+      funext e; simp only [Function.comp, id]; exact Prod.ext (by simp) rfl
+    rw [this, List.map_id]
+  · intro e he
+    obtain ⟨x, hx, rfl⟩ := List.mem_map.1 he
+    have := active_contains step as ae elems hstep p hp x hx
+    simp only [Bool.and_eq_true, decide_eq_true_eq]
+    omega
+
 /-- `/`: at most `n` partitions -/
 theorem truediv_parts (shape n : Int) (rel : Bool) (elems : Fib Int π) (hshape : 0 < shape) (hn : 0 < n) :
     (uSpec (truedivStep shape n) 0 0 0 shape rel elems).length ≤ n.toNat := by
@@ -392,16 +421,16 @@ theorem equal_chunks (step as ae : Int) (rel : Bool) (elems : Fib Int π)
 example : splitEqualIter 2 0 0 0 9 false [((1 : Int), (10 : Int)), (2, 20), (5, 50), (6, 60), (8, 80)] =
     some [⟨0, [(1, 10), (2, 20)], 0, 5⟩, ⟨5, [(5, 50), (6, 60)], 5, 8⟩, ⟨8, [(8, 80)], 8, 9⟩] := by decide
 
-/-- **splitUnEqual in position space** (halo 0) — partial: proved for a non-empty list of positive
-    sizes: chunks of the stated sizes, whatever remains in one last chunk.  (With `sizes = []` the
-    code returns no partition at all, see `unequal_empty_sizes_witness`.) -/
-theorem unequal_chunks_partial (sizes : List Int) (as ae : Int) (rel : Bool) (elems : Fib Int π)
-    (hne : sizes ≠ []) (hpos : ∀ s ∈ sizes, 1 ≤ s) (hact : as < ae) (hsorted : Sorted elems) :
+/-- **splitUnEqual in position space** (halo 0), every list of positive sizes — the empty list
+    included (one partition with everything, since /repo COMMIT:C08-01): chunks of the stated sizes,
+    whatever remains in one last chunk. -/
+theorem unequal_chunks (sizes : List Int) (as ae : Int) (rel : Bool) (elems : Fib Int π)
+    (hpos : ∀ s ∈ sizes, 1 ≤ s) (hact : as < ae) (hsorted : Sorted elems) :
     splitUnEqualIter sizes 0 0 as ae rel elems =
       some (chunkParts as ae rel (takeChunks (sizes.map Int.toNat)
         (elems.filter (fun e => decide (as ≤ e.1) && decide (e.1 < ae))))) := by
   rw [unequal_spec sizes 0 0 as ae rel elems hact hsorted,
-    iterActive_eq_filter as ae elems hsorted, unequalBounds_chunks sizes hne hpos as]
+    iterActive_eq_filter as ae elems hsorted, unequalBounds_chunks sizes hpos as]
   rw [nuSpec_chunks as ae rel elems hsorted _ as
     (takeChunks_nonempty _ _ (by
       intro s hs
@@ -417,12 +446,8 @@ theorem unequal_chunks_partial (sizes : List Int) (as ae : Int) (rel : Bool) (el
 example : splitUnEqualIter [1, 2] 0 0 0 9 false [((1 : Int), (10 : Int)), (2, 20), (5, 50), (6, 60), (8, 80)] =
     some [⟨0, [(1, 10)], 0, 2⟩, ⟨2, [(2, 20), (5, 50)], 2, 6⟩, ⟨6, [(6, 60), (8, 80)], 6, 9⟩] := by decide
 
-/-- the excluded class is real: `Fiber([3],[5]).splitUnEqual([])` yields no partition although the
-    remainder rule would put the element into one final chunk -/
-theorem unequal_empty_sizes_witness :
-    splitUnEqualIter [] 0 0 0 4 false [((3 : Int), (5 : Int))] = some [] ∧
-    chunkParts 0 4 false (takeChunks ([] : List Nat) [((3 : Int), (5 : Int))]) = [⟨0, [(3, 5)], 0, 4⟩] := by
-  decide
+/-- the former defect witness `Fiber([3],[5]).splitUnEqual([])`: one final partition -/
+example : splitUnEqualIter [] 0 0 0 4 false [((3 : Int), (5 : Int))] = some [⟨0, [(3, 5)], 0, 4⟩] := by decide
 
 end
 
@@ -473,7 +498,8 @@ example : (nuSpec [0, 3, 7] 1 2 0 9 false exF).length = 3 := by decide
 example := equal_spec 2 1 0 0 9 false exF (by decide) exF_sorted
 example := unequal_spec [1, 2] 0 1 0 9 false exF (by decide) exF_sorted
 example := equal_chunks 2 0 9 false exF (by decide) (by decide) exF_sorted
-example := unequal_chunks_partial [1, 2] 0 9 false exF (by decide) (by decide) (by decide) exF_sorted
+example := unequal_chunks [1, 2] 0 9 false exF (by decide) (by decide) exF_sorted
+example := unequal_chunks [] 0 9 false exF (by decide) (by decide) exF_sorted
 
 example := upper_ascending 2 1 1 0 9 false exF (by decide)
 example := upper_ascending_nonuniform [0, 3, 7] 1 2 0 9 false exF (by decide)
@@ -488,6 +514,7 @@ example := active_clip 4 1 1 1 7 exF (by decide) (by decide) ⟨4, [(5, 50), (6,
 example := active_contains 4 1 7 exF (by decide) ⟨4, [(5, 50), (6, 60)], 4, 7⟩ (by decide)
 example := active_clip_nonuniform [0, 3, 7] 0 0 1 8 exF (by decide) (by decide) ⟨0, [(1, 10), (2, 20)], 1, 3⟩ (by decide)
 example := resplit_tiles 4 2 0 9 exF (by decide) (by decide) exF_sorted
+example := resplit_tiles_relative 4 2 0 9 exF (by decide) (by decide) exF_sorted
 example := truediv_parts 9 2 false exF (by decide) (by decide)
 example := floordiv_parts 5 2 0 9 false exF (by decide) (by decide)
 
